@@ -330,7 +330,9 @@ def r5(ctx: Context, sites) -> None:
             txt = ast.unparse(o.node)
             per_key = any(isinstance(n, ast.For) and "key_serialized_arguments.items()" in ast.unparse(n.iter) and "JOIN" in ast.unparse(n) and "arg_key = ?" in ast.unparse(n) and "arg_value = ?" in ast.unparse(n) for n in walk_no_nested(o.node))
             ctx.add("R5", f"{o.qualname}::one-join-per-key-pair", per_key, o.loc(), "" if per_key else "not every key/value pair constrains the result (one inner JOIN per pair on arg_key AND arg_value)")
-            ok = "i.task_id_key = ?" in txt and "' AND '.join(wheres)" in txt and "i.status IN" in txt
+            consts = [n.value for n in ast.walk(o.node) if isinstance(n, ast.Constant) and isinstance(n.value, str)]
+            and_join = any(isinstance(n, ast.Call) and call_name(n) == "join" and isinstance(n.func, ast.Attribute) and isinstance(n.func.value, ast.Constant) and n.func.value.value.strip().upper() == "AND" for n in ast.walk(o.node))
+            ok = any("task_id_key = ?" in c_ for c_ in consts) and and_join and any("status IN (" in c_ for c_ in consts)
             ctx.add("R5", f"{o.qualname}::task-and-status-filters-ANDed", ok, o.loc(), "" if ok else "task / status filters are not AND-combined")
         else:
             fk = o.cls.methods.get("filter_by_key_arguments") if o.cls else None
